@@ -195,19 +195,36 @@ func zzData(k int) (sig string, data []byte, nestsValue bool) {
 			d = zzCat(d, zzStr(sym.Str("key", sym.Choose("keylen", 2))), inner())
 		}
 		return "{sm}", d, n > 0
-	default:
+	case 11:
 		n := count(1)
 		d := zzLE32(uint32(n))
 		for i := 0; i < n; i++ {
 			d = zzCat(d, inner())
 		}
 		return "([m])", d, n > 0
+	case 12:
+		// template-style struct name (C++ style), accepted by the grammar
+		return "(ff)<Pair<float>,value,confidence>", zzCat(zzLE32(sym.U32("v")), zzLE32(sym.U32("c"))), false
+	case 13:
+		// zero-sized elements: the encoding is the count alone
+		return "[v]", zzLE32(uint32(count(3))), false
+	case 14:
+		return "[()]", zzLE32(uint32(count(2))), false
+	default:
+		n := count(1)
+		d := zzLE32(uint32(n))
+		for i := 0; i < n; i++ {
+			d = zzCat(d, zzLE32(sym.U32("k")))
+		}
+		return "{Iv}", d, false
 	}
 }
 
+const zzNSigs = 16
+
 // C02Opaque: values of composite signatures carried opaquely round-trip byte for byte.
 func C02Opaque() {
-	k := sym.Choose("sig", 12)
+	k := sym.Choose("sig", zzNSigs)
 	sig, data, nests := zzData(k)
 	v := Opaque(sig, data)
 	// one label per signature (and per "a nested dynamic value is present"): a finding is keyed by the
@@ -232,8 +249,8 @@ func C02ListOfOpaque() {
 // C02TwoOpaques: two opaque values of struct/tuple signatures alive at the same time (inside one
 // list, and from two consecutive decodes): decoding the second must not disturb the first.
 func C02TwoOpaques() {
-	k1 := []int{3, 5, 7}[sym.Choose("sig1", 3)]
-	k2 := []int{3, 5, 7}[sym.Choose("sig2", 3)]
+	k1 := []int{1, 2, 3, 5}[sym.Choose("sig1", 4)]
+	k2 := []int{1, 2, 3, 5}[sym.Choose("sig2", 4)]
 	sig1, data1, _ := zzData(k1)
 	sig2, data2, _ := zzData(k2)
 	v := List([]Value{Opaque(sig1, data1), Opaque(sig2, data2)})
